@@ -35,6 +35,8 @@ CONSTANTS
     GenMode,        \* "full": unrestricted adversary; "budget": at most HostileBudget non-cooperative actions;
                     \* "sim": cooperative until simulation depth HostileFrom
     HostileBudget, HostileFrom,
+    EarlyData,      \* TRUE: a peer that sends SPINE data frames before this side's handshake is over counts as cooperative (C06: the
+                    \*       held-back frames; ship-go itself never does that, other implementations may)
     MaxSleeps,      \* passages of real time per behaviour (keeps a replayed behaviour far below the 10 s timers)
     ParMode,        \* TRUE: a behaviour may end with two entry points of a connection called at the same time (ParStep)
     EmitMode,       \* "none" | "edge" (every edge, BFS) | "final" (whole behaviour at depth SimDepth, -simulate)
@@ -402,7 +404,7 @@ Coop(r) ==
     \cup (IF r.st \in {"ServerListenConfirm", "ClientListenChoice"} THEN {MProt("select")} ELSE {})
     \cup (IF r.st = "PinCheckListen" THEN {MPin("none")} ELSE {})
     \cup (IF r.st = "AccessMethodsRequest" THEN {MAccReq, MAcc("A"), MAcc("B")} ELSE {})
-    \cup (IF r.st = "Complete" THEN {[t |-> "data"]} ELSE {})
+    \cup (IF r.st = "Complete" \/ (EarlyData /\ r.ran /\ r.wsOpen) THEN {[t |-> "data"]} ELSE {})
 
 HostileOK == CASE GenMode = "full"   -> TRUE
                [] GenMode = "budget" -> hb > 0
